@@ -117,6 +117,23 @@ func runHistProp(o *Options, prop string, prof *Profile, quickN, thoroughN int, 
 				hs = append(hs, h)
 			}
 		}
+		// a print of every spelling (plain, raw / noesc, letters, prefix and suffix, ternary) cut by the
+		// writer at each of its writes, then a Reset or the pool, then static text inside each bound
+		// tag before any print: nothing of the cut render may show
+		prints := []string{`id:{%= v|raw %};`, `id:{%= v|noesc pfx a= %}`, `{%= v %}`, `{%j= v sfx ; %}`, `{%= v pfx < sfx > %}`, `{%= one == 1 ? v : one %}`, `{% jsonquote %}{%= v|raw %}{% endjsonquote %}`}
+		regions := []string{`{% jsonquote %}he said "hi" to <all>{% endjsonquote %}{%= v %}`, `{% htmlescape %}he said "hi" to <all> & co{% endhtmlescape %}{%= v %}`, `{% urlencode %}a b&c=d/e{% endurlencode %}{%= v %}`}
+		for pi, ps := range prints {
+			for cut := 1; cut <= 3; cut++ {
+				h := &history{Reg: map[string][]dyntpl.VerifNode{}, Flits: map[string]float64{}, Budget: 8}
+				d := &DataEnv{Statics: []StaticVar{{Name: "one", Kind: "int", I: 1}, {Name: "v", Kind: "string", S: []byte(`V"<&>`)}}}
+				first := manualCase((id0+80+pi)*10+cut, ps, d, h)
+				second := manualCase((id0+90+pi)*10+cut, regions[(pi+cut)%3], d, h)
+				h.Steps = []*hStep{{Kind: "render", IC: first, Key: first.vc.Meta["key"].(string), Fail: cut, Short: (pi + cut) % 2}, {Kind: []string{"reset", "release"}[(pi+cut)%2]},
+					{Kind: "render", IC: second, Key: second.vc.Meta["key"].(string)}, {Kind: "reset"}}
+				h.run()
+				hs = append(hs, h)
+			}
+		}
 		// slot transitions: every ordered pair of variable kinds (13 x 13) in the same slots across a reset
 		id := n
 		for _, a := range slotKinds {
